@@ -120,7 +120,7 @@ PROPS = {
         assumptions=["callers on several threads are modelled by the Alloc / Enqueue split of Start (id taken under the shared mutex, request handed to the driver later; exercised on the real code through the hook verif_hold_next_alloc); true parallelism inside next_msgid itself is the mutex's business (oracle-only mt lane)", "theorems over whole histories: below the wrap-around of the 31-bit id counter (beyond it: the id-table hook lane)"],
     ),
     "C04": dict(
-        groups=[("faults", 264, 1600), ("conn", 300, 20000)],
+        groups=[("faults", 264, 1600), ("conn", 300, 20000), ("tls", 60, 400)],
         exact_lanes=["msgid"],
         rule="scripts of 3-16 steps over the real driver (current-thread runtime, paused clock, in-memory transport): start single/direct-search/adapted-search/abandon/unbind operations on cloned handles with and without timeouts (0, 1, 1000, 5000 ms), one start in five held between id allocation and the send to the driver while other operations overtake it, server responses for live, finished and unknown ids (entries, references, intermediates, done, other ops) delivered in two writes, clock advances around the deadlines, next()/finish() calls, EOF / garbage / read error / write error / partial message / handle drop; observation after EVERY step (per-op status and delivered tokens, request log, id table, routing gauges, driver result). non-trivial = distinct script in which at least one operation completed. fault lane: three fixed exchanges x every prefix x 8 fault kinds (EOF, garbage, read error, write error, partial message + EOF/error, handle drop, unbind)",
         trivial=[],
@@ -171,7 +171,7 @@ PROPS = {
         groups=[("tls", 90, 600)],
         gen=["settings"],
         exact_lanes=["tls"],
-        rule="matrix scheme (ldap/ldaps) x StartTLS x verification disabled x connector (default / custom with the test CA) x server behaviour (StartTLS answer: success, rc 2, rc 53, garbage, close, another message first; certificate: chains to the CA, self-signed, wrong name; handshake completes or aborted; forged cleartext reply appended to the StartTLS response) "
+        rule="matrix scheme (ldap/ldaps) x StartTLS x verification disabled x connector (default / custom with the test CA) x server behaviour (StartTLS answer: success, rc 2, rc 53, rc 256, rc 4096, garbage, close after the request, close at once without reading, an unsolicited message before the request is read, another message before the response; certificate: chains to the CA, self-signed, wrong name; handshake completes or aborted; forged cleartext reply appended to the StartTLS response) "
              "against loopback listeners with a native-tls acceptor; the server logs every cleartext and every decrypted LDAP message. quick = strided sample, thorough = whole matrix. non-trivial = distinct case that reached a verdict (not skipped)",
         trivial=["skipped"],
         trusted=["oracle, not modelled: the TLS library (handshake, X.509 path and name validation); certificates minted by tools/mkcerts.sh (openssl CLI)", "real sockets and wall-clock guards (2.5 s per establishment)"],
